@@ -113,7 +113,7 @@ func TestLifecycle(t *testing.T) {
 		if err != nil {
 			t.Fatalf("NewInterceptor(%s): %v", name, err)
 		}
-		rtcpSink := &kit.RTCPSink{}
+		rtcpSink := &kit.RTCPSink{Delay: 200 * time.Microsecond} // a slow transport: a tick is often still writing when Close is called
 		rtcpSrc := &kit.ByteSource{}
 		var rtcpIn interceptor.RTCPReader
 		writerBound, closed := false, false
@@ -425,6 +425,9 @@ func TestLifecycle(t *testing.T) {
 				}
 				guard("Close", func() { _ = ic.Close() })
 				closed = true
+				if n := rtcpSink.InFlight(); n > 0 {
+					t.Fatalf("%s: Close returned while %d RTCP write(s) of the interceptor's goroutines were still in progress (ops %v)", name, n, ops)
+				}
 				rtcpAfter := rtcpSink.Len()
 				close(stop)
 				if o := kit.Guard(deadline, wg.Wait); !o.OK() {
